@@ -21,6 +21,7 @@ LEAF_CODE = {
     "categorical": "c",
     "poisson": "p",
     "normalv": "v",
+    "flipv": "q",
 }
 
 ALL_LEAVES = [
@@ -37,8 +38,9 @@ ALL_LEAVES = [
     "categorical",
     "poisson",
     "normalv",
+    "flipv",
 ]
-DISCRETE_LEAVES = ["flip", "flip", "bernoulli", "categorical"]
+DISCRETE_LEAVES = ["flip", "flip", "bernoulli", "categorical", "flipv"]
 
 DEFAULT_KINDS = {
     "static": 5,
@@ -313,7 +315,7 @@ def gen_leaf(g, pool=None):
     rng = g.rng
     d = rng.choice(pool or g.P["leaves"])
     node = {"k": "dist", "d": d}
-    if d in ("categorical", "normalv"):
+    if d in ("categorical", "normalv", "flipv"):
         node["n"] = rng.choice([2, 3])
     return node
 
@@ -356,7 +358,7 @@ def mult(node):
     """How many scalar leaf sites one call of node makes at most."""
     k = node["k"]
     if k == "dist":
-        return node.get("n", 1) if node["d"] == "normalv" else 1
+        return node.get("n", 1) if node["d"] in ("normalv", "flipv") else 1
     if k == "static":
         return sum(mult(s["callee"]) for s in node["stmts"])
     if k in ("vmap", "repeat") or k in SCAN_LIKE:
@@ -670,7 +672,7 @@ def features(node, under_switch=False, acc=None, rootish=True):
         shapes = {}
         for b in brs:
             for a, leaf in _uni(b):
-                shp = leaf.get("n") if leaf["d"] == "normalv" else None
+                shp = leaf.get("n") if leaf["d"] in ("normalv", "flipv") else None
                 if a in shapes and shapes[a] != shp:
                     acc.add("switch_shape_conflict")
                 shapes.setdefault(a, shp)
